@@ -840,6 +840,30 @@ pub fn run_c20(seed: u64, n: usize, out: &str) {
         files.sort();
         for f in files { if let Ok(t) = std::fs::read_to_string(&f) { c20_doc(&mut sink, &format!("corpus:{}", f.file_name().unwrap().to_string_lossy()), t.trim_end_matches('\n'), None); } }
     }
+    // polygons whose hole has its nearest vertex exactly IN LINE with the outer edge that leaves a reflex corner (the bridge
+    // runs along the prolongation of that edge; push drops the corner as redundant on the way back, so the merged outline has
+    // an edge containing the bridge): the document the crate writes must read back (seeded change C20-m5: valid_to_add
+    // refusing edges that overlap an earlier one).  Fixed cases; the merge is outside the general-position quantifier of the
+    // C12 / C20 oracles, so these are judged by the model / code correspondence
+    {
+        let lsh: Vec<P2> = vec![(0.0, 0.0), (4.0, 0.0), (4.0, 2.0), (2.0, 2.0), (2.0, 4.0), (0.0, 4.0)];
+        let holes: [Vec<P2>; 3] = [vec![(2.0, 1.5), (1.3, 1.4), (1.7, 1.0)], vec![(2.0, 1.5), (1.7, 1.0), (1.3, 1.4)], vec![(1.6, 1.7), (1.0, 1.5), (1.4, 1.1)]];
+        let frames = [Frame::xy(), Frame { o: [3.0, 0.0, 0.0], e1: [0.0, 1.0, 0.0], e2: [0.0, 0.0, 1.0], kind: 0 }];
+        for fr in frames.iter() {
+            for (k, h) in holes.iter().enumerate() {
+                for start in [0usize, 3] {
+                    let outer = match make_loop(fr, &rotate_start(&lsh, start)) { Some(l) => l, None => continue };
+                    let hl = match make_loop(fr, h) { Some(l) => l, None => continue };
+                    let mut pg = match Polygon3D::new(outer.clone()) { Ok(p) => p, Err(_) => continue };
+                    if let Ok(Ok(())) = catch(AUS(|| pg.cut_hole(hl.clone()))) {
+                        if let Ok(Ok(text)) = catch(AUS(|| serde_json::to_string(&pg))) {
+                            if sink.len() < n { c20_doc(&mut sink, &format!("poly:aligned-hole{}:plane0:h1", k), &text, Some((&outer, &[hl.clone()], Some(&pg)))); }
+                        }
+                    }
+                }
+            }
+        }
+    }
     let mut pending: Vec<(String, String)> = vec![];
     while sink.len() < n {
         match r.below(20) {
